@@ -111,6 +111,49 @@ def m_map(it, recv, args, e, mod, discard):
     return v
 
 
+@method("map_err")
+def m_map_err(it, recv, args, e, mod, discard):
+    v = opt(it, recv)
+    if v.variant == "Err":
+        return err(it.call_value(it.deref(args[0]), [v.fields[0]]))
+    return v
+
+
+@method("unwrap_or_else")
+def m_unwrap_or_else(it, recv, args, e, mod, discard):
+    v = opt(it, recv)
+    if v.variant in ("Some", "Ok"):
+        return v.fields[0]
+    f = it.deref(args[0])
+    return it.call_value(f, [v.fields[0]] if v.variant == "Err" else [])
+
+
+@method("is_ok")
+def m_is_ok(it, recv, args, e, mod, discard):
+    return opt(it, recv).variant == "Ok"
+
+
+@method("is_err")
+def m_is_err(it, recv, args, e, mod, discard):
+    return opt(it, recv).variant == "Err"
+
+
+@method("next_back")
+def m_next_back(it, recv, args, e, mod, discard):
+    items = list(it.iterate(it.deref(recv)))
+    return some(items[-1]) if items else none()
+
+
+@method("trim")
+def m_trim(it, recv, args, e, mod, discard):
+    r = it.deref(recv)
+    if isinstance(r, Str) and r.s is not None:
+        return Str(r.s.strip())
+    if isinstance(r, str):
+        return r.strip()
+    raise InternalError("trim of a non-concrete string")
+
+
 @method("map_or")
 def m_map_or(it, recv, args, e, mod, discard):
     v = opt(it, recv)
@@ -531,11 +574,57 @@ def m_count(it, recv, args, e, mod, discard):
     return len(list(it.iterate(recv)))
 
 
-@method("char_indices", "as_bytes", "split", "trim_end", "find", "repeat", "next_boundary", "chars")
+@method("char_indices", "as_bytes", "split", "trim_end", "find", "repeat", "next_boundary", "chars", "parse")
 def m_text(it, recv, args, e, mod, discard):
     if it.text is None:
         raise InternalError("text method %s without a text model" % e["method"])
     return it.text.method(it, e["method"], it.deref(recv), args, e, mod)
+
+
+# ---------------------------------------------------------------------------------------------
+# usize helper methods (plain machine words below 2^62, see DESIGN.md 2.2)
+def _usz2(it, recv, args, name):
+    a, b = it.resolve(it.deref(recv)), it.resolve(it.deref(args[0]))
+    for x in (a, b):
+        if isinstance(x, bool) or not (isinstance(x, int) or is_sym(x)):
+            raise InternalError("%s on %s" % (name, type(x).__name__))
+    return a, b
+
+
+@method("saturating_sub")
+def m_saturating_sub(it, recv, args, e, mod, discard):
+    a, b = _usz2(it, recv, args, "saturating_sub")
+    if isinstance(a, int) and isinstance(b, int):
+        return max(a - b, 0)
+    return z_ite(a >= b, a - b, 0)
+
+
+@method("saturating_add", "wrapping_add")
+def m_saturating_add(it, recv, args, e, mod, discard):
+    a, b = _usz2(it, recv, args, "saturating_add")
+    return a + b
+
+
+@method("checked_sub")
+def m_checked_sub(it, recv, args, e, mod, discard):
+    a, b = _usz2(it, recv, args, "checked_sub")
+    if isinstance(a, int) and isinstance(b, int):
+        return some(a - b) if a >= b else none()
+    return some(a - b) if it.ex.branch(a >= b) else none()
+
+
+@method("checked_add")
+def m_checked_add(it, recv, args, e, mod, discard):
+    a, b = _usz2(it, recv, args, "checked_add")
+    return some(a + b)
+
+
+@method("abs_diff")
+def m_abs_diff(it, recv, args, e, mod, discard):
+    a, b = _usz2(it, recv, args, "abs_diff")
+    if isinstance(a, int) and isinstance(b, int):
+        return abs(a - b)
+    return z_ite(a >= b, a - b, b - a)
 
 
 # ---------------------------------------------------------------------------------------------
@@ -616,7 +705,7 @@ def b_once(it, args, e, mod):
     return _I().IterV([args[0]])
 
 
-@builtin("BigInt::parse_bytes", "GraphemeCursor::new")
+@builtin("BigInt::parse_bytes", "BigInt::from", "GraphemeCursor::new")
 def b_text(it, args, e, mod):
     if it.text is None:
         raise InternalError("text function without a text model")
